@@ -31,6 +31,8 @@ type caseState struct {
 	ids       []string        // call index -> the id it carried (compact JSON)
 	answers   []answerObs
 	scriptOut bool
+	inits     int // initialize requests seen
+	docs      int // decode: answered calls
 
 	scriptSent chan struct{} // the script has been written and flushed
 	getOpened  chan struct{}
@@ -84,6 +86,18 @@ func compact(raw json.RawMessage) string {
 
 func initAnswer(id json.RawMessage) string {
 	return fmt.Sprintf(`{"jsonrpc":"2.0","id":%s,"result":{"protocolVersion":"2025-03-26","capabilities":{"tools":{"listChanged":true}},"serverInfo":{"name":"scripted","version":"0"}}}`, id)
+}
+
+// nextInit: the answer to this initialize request — one of the case's bad ones first, then the proper one ("" = proper)
+func (st *caseState) nextInit() (text string, bad bool) {
+	st.mu.Lock()
+	defer st.mu.Unlock()
+	i := st.inits
+	st.inits++
+	if i < len(st.cs.BadInits) {
+		return docText(st.cs.BadInits[i]), true
+	}
+	return "", false
 }
 
 func (st *caseState) recordAnswer(in rpcIn) {
@@ -142,11 +156,29 @@ func streamableHandler(w http.ResponseWriter, r *http.Request) {
 		}
 		switch {
 		case in.Method == "initialize":
+			w.Header().Set("Content-Type", "application/json")
 			if cs.C == "readers.get" {
+				// also on the answers with bad content (a server that assigns the session before it answers): an initialize
+				// answer WITHOUT a session id switches the client to stateless mode and turns its GET stream off for good
+				// (streamable_client.go send: enableGetSSE = false) — documented auto-detection, not this component's subject
 				w.Header().Set("Mcp-Session-Id", fmt.Sprintf("scripted-session-%06d", cs.N))
 			}
-			w.Header().Set("Content-Type", "application/json")
+			if text, bad := st.nextInit(); bad {
+				io.WriteString(w, text)
+				return
+			}
 			io.WriteString(w, initAnswer(in.ID))
+		case cs.C == "readers.decode" && in.Method == cs.Method && in.Params.Cursor != "next":
+			st.mu.Lock()
+			i := st.docs
+			st.docs++
+			st.mu.Unlock()
+			if i >= len(cs.Docs) {
+				http.Error(w, "more calls than documents", 500)
+				return
+			}
+			w.Header().Set("Content-Type", "application/json")
+			io.WriteString(w, docText(cs.Docs[i]))
 		case in.Method == "":
 			st.recordAnswer(in)
 			w.WriteHeader(http.StatusAccepted)
@@ -196,6 +228,9 @@ func streamableHandler(w http.ResponseWriter, r *http.Request) {
 		close(st.getOpened)
 		w.Write(renderLines(cs.Lines))
 		// the later well-formed frame every case ends with
+		if cs.SentinelID != nil {
+			w.Write(renderLines([]Line{*cs.SentinelID}))
+		}
 		fmt.Fprintf(w, "data: %s\n\n", notifText(sentinelK))
 		flush(w)
 		select {
@@ -256,7 +291,11 @@ func legacyMessage(w http.ResponseWriter, r *http.Request) {
 	ev := func(payload string) []byte { return []byte("event: message\ndata: " + payload + "\n\n") }
 	switch {
 	case in.Method == "initialize":
-		st.push <- ev(initAnswer(in.ID))
+		if text, bad := st.nextInit(); bad {
+			st.push <- ev(text)
+		} else {
+			st.push <- ev(initAnswer(in.ID))
+		}
 	case in.Method == "":
 		st.recordAnswer(in)
 	case strings.HasPrefix(in.Method, "notifications/"):
